@@ -2,7 +2,7 @@
 
 import itertools
 
-from ..common import Result, Violation, import_gscrib, pmap, digest
+from ..common import Result, Violation, import_gscrib, pmap, digest, debug_logging
 
 import_gscrib()
 from gscrib.writers.printrun_writer import PrintrunWriter   # noqa: E402
@@ -108,6 +108,13 @@ PENDING = {"after-alarm": "ALARM:1", "after-error": "error:9", "after-Error": "E
 
 
 def check_report(text, expected, with_prior, wrap=None):
+    if wrap == "debug-logging":
+        with debug_logging():
+            return check_report(text, expected, with_prior, None)
+    return _check_report(text, expected, with_prior, wrap)
+
+
+def _check_report(text, expected, with_prior, wrap=None):
     """wrap: how the line arrives from printcore's reader ('crlf': with its CR LF terminator, 'space': Marlin's leading blank)."""
     w, cb = new_writer()
     model = {}
@@ -138,12 +145,12 @@ def _work_single(item):
     fam, text, exp = item
     out = []
     for with_prior, wrap in ((False, None), (True, None), (True, "crlf"), (False, "space"), (True, "after-alarm"), (False, "after-error"),
-                             (True, "after-Error"), (False, "after-bang")):
+                             (True, "after-Error"), (False, "after-bang"), (True, "debug-logging")):
         if wrap == "space" and text.startswith(("ok", "<", "[")):
             continue
         for sig, msg in check_report(text, exp, with_prior, wrap):
             lead = "leading-ok" if text.startswith("ok") else "plain"
-            if wrap in PENDING:
+            if wrap in PENDING or wrap == "debug-logging":
                 lead += ":" + wrap
             out.append((f"{fam}:{lead}:{sig}", msg, {"reports": ([PRIOR] if with_prior else []) + ([PENDING[wrap]] if wrap in PENDING else []) + [text],
                                                      "with_prior": with_prior, "wrap": wrap}))
@@ -213,13 +220,13 @@ def run(tier, seed):
     for f, _, _ in singles:
         fams[f] = fams.get(f, 0) + 1
     res.coverage = {
-        "evaluations": 8 * len(singles) + len(hists),
+        "evaluations": 9 * len(singles) + len(hists),
         "distinct_nontrivial": len({t for _, t, _ in singles}) + len(states),
         "rule": ("reports generated from structured fields so the expected readings are known without parsing: Marlin position (X,Y,Z,E in all 24 orders + "
                  "Count block with other values), Marlin temperature (with/without leading ok, @ tail, T0 decoy), Grbl status (MPos|WPos, FS, multi-letter "
                  "decoys in every order), [PRB:..]; values from a list incl. -0.0, 0.001, integers; each report is delivered to the receive callback the writer "
                  "registers on printcore, on a fresh writer and after a prior report that set every letter, with CR LF / leading blank, and while an unsolicited ALARM:, error:, Error: "
-                 "or !! line is pending; plus every sequence of <= "
+                 "or !! line is pending, and with the library's loggers switched to DEBUG; plus every sequence of <= "
                  f"{depth} lines from a {len(BASIS)}-line basis (12 reports + 7 lines that are not reports: alarm, errors, ok, start, [MSG:..]) against a dict model; distinct = distinct report texts + distinct model states"),
         "exhaustive": True,
         "exhaustive_note": "complete enumeration of the stated generator space; other report syntaxes are not covered",
